@@ -137,6 +137,31 @@ def check_declared_inputs(model: Model, modname: str, rr: RuleResult):
                 base = norm(edge.variables.func.value)
                 if f"list({base})" in declared_txt or f"tuple({base})" in declared_txt:
                     all_declared = True
+            # implicit=<helper>(variables): read which keys the helper lists
+            helper_keys = None
+            for x in (edge.inputs, edge.implicit):
+                if isinstance(x, ast.Call) and isinstance(edge.variables, ast.Name) and any(isinstance(a, ast.Name) and a.id == edge.variables.id for a in x.args):
+                    callee = model.resolve_call(fi, x)
+                    if callee is not None:
+                        pname = callee.params[[norm(a) for a in x.args].index(edge.variables.id)]
+                        got = set()
+                        shape_ok = False
+                        for st in walk_body(callee):
+                            if isinstance(st, ast.Return) and st.value is not None:
+                                v = st.value
+                                if isinstance(v, ast.ListComp) and isinstance(v.elt, ast.Subscript) and norm(v.elt.value) == pname and isinstance(v.generators[0].iter, (ast.Tuple, ast.List)):
+                                    got |= {e.value for e in v.generators[0].iter.elts if isinstance(e, ast.Constant)}
+                                    shape_ok = True
+                                elif isinstance(v, (ast.List, ast.Tuple)):
+                                    for e in v.elts:
+                                        if isinstance(e, ast.Subscript) and norm(e.value) == pname and isinstance(e.slice, ast.Constant):
+                                            got.add(e.slice.value)
+                                    shape_ok = True
+                                elif isinstance(v, ast.Call) and norm(v.func) in ("list", "tuple", "sorted") and norm(v.args[0]) == f"{pname}.values()":
+                                    got |= set(keys)
+                                    shape_ok = True
+                        if shape_ok:
+                            helper_keys = got
             for k, val in keys.items():
                 exc = R09B_EXCEPTIONS.get((f"{modname}.{fi.qualname}", k))
                 is_path = k.endswith(("_file", "_font", "_dir")) or (val is not None and any(
@@ -144,8 +169,9 @@ def check_declared_inputs(model: Model, modname: str, rr: RuleResult):
                 if not is_path:
                     rr.ok(f"{fi.qualname} -> {rname}: ${k} is not a path")
                     continue
-                if all_declared:
-                    rr.ok(f"{fi.qualname} -> {rname}: ${k} declared (all variable values are implicit inputs)")
+                if all_declared or (helper_keys is not None and k in helper_keys):
+                    rr.ok(f"{fi.qualname} -> {rname}: ${k} declared (all variable values are implicit inputs)" if all_declared else
+                          f"{fi.qualname} -> {rname}: ${k} declared (listed by the implicit-inputs helper)")
                     continue
                 declared = False
                 if val is not None:
